@@ -90,7 +90,7 @@ def is_declarative(op):
 
 class UnitRecord:
     __slots__ = ("unit_id", "path", "lang", "status", "nrows", "sig_exc", "sig_fn", "where", "message", "tb",
-                 "top", "has_error", "flat_ids", "flat_ops", "calls", "rows")
+                 "top", "has_error", "flat_ids", "flat_ops", "calls", "rows", "n_statements", "contained")
 
     def __init__(self, unit_id, path, lang):
         self.unit_id, self.path, self.lang = unit_id, path, lang
@@ -103,6 +103,9 @@ class UnitRecord:
         self.flat_ops = None
         self.calls = 0
         self.rows = None             # the row dicts handed to the loader (kept only when asked for)
+        self.n_statements = None     # len(statements) when Parser.parse_gir returned (None: never returned)
+        self.contained = None        # (exception type, innermost lian function, where, message) of an exception
+        #                              that lian itself caught inside the per-file entry (evidence only)
 
 
 class Recorder:
@@ -114,6 +117,7 @@ class Recorder:
         self.parse_gir_calls = 0
         self.flatten_calls = 0
         self.save_errors = []        # (path, "Type: message") of feather writes that raised (lian swallows them)
+        self.last_quit_message = None   # diagnostic of the latest util.error_and_quit call
 
 
 def innermost_lian_frame(tb, src_root):
@@ -155,7 +159,10 @@ def install(rec, contain=True, repo=None, keep_rows=False):
             res = orig_deal(self, current_node_id, unit_info, file_unit, *a, **kw)
         except SystemExit as e:
             fn, where = innermost_quit_frame(sys.exc_info()[2], src_root)
-            u.status, u.sig_exc, u.sig_fn, u.where, u.message = "quit", "SystemExit", fn, where, repr(e.code)
+            u.status, u.sig_exc, u.sig_fn, u.where = "quit", "SystemExit", fn, where
+            u.message = f"SystemExit({e.code!r})" + (f" after '[ERROR]: {rec.last_quit_message}'"
+                                                      if rec.last_quit_message else "")
+            rec.last_quit_message = None
             rec.cur = None
             if not contain:
                 raise
@@ -197,7 +204,27 @@ def install(rec, contain=True, repo=None, keep_rows=False):
                 u.has_error = bool(node.has_error)
             except Exception:
                 u.top = None
-        return orig_parse_gir(self, node, statements)
+        res = orig_parse_gir(self, node, statements)
+        if u is not None:
+            try:
+                u.n_statements = len(statements)
+            except Exception:
+                pass
+        return res
+
+    orig_translate = getattr(lang_analysis.GIRParser, "translate_file_unit", None)
+
+    def translate_file_unit(self, *a, **kw):
+        """lian's own containment sits between deal_with_file_unit and this method: what it is about to swallow is
+        recorded (evidence: which files end without GIR because of a contained failure) and re-raised unchanged."""
+        try:
+            return orig_translate(self, *a, **kw)
+        except Exception as e:
+            u = rec.cur
+            if u is not None:
+                fn, where = innermost_lian_frame(sys.exc_info()[2], src_root)
+                u.contained = (type(e).__name__, fn, where, str(e)[:200])
+            raise
 
     def flatten(self, stmts):
         rec.flatten_calls += 1
@@ -211,6 +238,14 @@ def install(rec, contain=True, repo=None, keep_rows=False):
                 u.flat_ids = None
         return res
 
+    from lian.util import util as lian_util
+    orig_quit = lian_util.error_and_quit
+
+    def error_and_quit(*msg):
+        rec.last_quit_message = " ".join(str(m) for m in msg)[:200]
+        return orig_quit(*msg)
+
+    lian_util.error_and_quit = error_and_quit
     import pandas as pd
     orig_to_feather = pd.DataFrame.to_feather
 
@@ -223,6 +258,8 @@ def install(rec, contain=True, repo=None, keep_rows=False):
 
     pd.DataFrame.to_feather = to_feather
     lang_analysis.GIRParser.deal_with_file_unit = deal_with_file_unit
+    if orig_translate is not None:
+        lang_analysis.GIRParser.translate_file_unit = translate_file_unit
     common_parser.Parser.parse_gir = parse_gir
     lang_analysis.GIRProcessing.flatten = flatten
     return rec
